@@ -247,8 +247,13 @@ class Surface(DaeObject):
         if self.format:
             formatnode = surfacenode.find(tag('format'))
             if formatnode is None:
-                # <format> follows the surface's initialisation and precedes its other children
-                surfacenode.insert(list(surfacenode).index(initnode) + 1, E.format(self.format))
+                # <format> follows the surface's initialisation (there may be several
+                # <init_from>) and precedes its other children
+                loc = 0
+                for i, child in enumerate(surfacenode):
+                    if child.tag.split('}')[-1].startswith('init_'):
+                        loc = i + 1
+                surfacenode.insert(loc, E.format(self.format))
             else:
                 formatnode.text = self.format
         initnode.text = self.image.id
